@@ -388,7 +388,7 @@ def run(tier, seed):
     quick = tier == 'quick'
     rep = Report(PID, tier, seed, 'translation_validation')
     common.build_mmdump()
-    mirs = [common.dump_mir('mimium_lang')[0], common.dump_mir('state_tree')[0]]
+    mirs = common.prog_mirs()
     groups = ['op', 'st', 'ct', 'cl', 'gn'] + ([] if quick else ['fx'])
     files = common.corpus_files(groups, tier, seed)
     steps = 3 if quick else 6
